@@ -304,8 +304,16 @@ def explore(rng, tier, replay=None):
             % (s[-1], seen[si][1][li]),
             {"kind": "correspondence", "script": s[k:], "impl": seen[si][1][k:li + 1], "model": [],
              "correspondence": PROP + "/btdmp"}, True))
-    return ctx
 
+    try:
+        from checks import c12
+        fv, fstats = c12.timing_slice(rng, 150 if tier == "quick" else 4000, PROP)
+        ctx["violations"] = ctx.get("violations", []) + fv
+        ctx["facade_slice"] = fstats
+        ctx["evaluations"] = ctx.get("evaluations", 0) + fstats["facade_scripts"]
+    except RuntimeError as ex:
+        ctx["violations"] = ctx.get("violations", []) + [("facade slice could not run: " + str(ex)[-300:], {"kind": "error", "error": str(ex)[-2000:]}, False)]
+    return ctx
 
 def replay(rep):
     return corr.replay(rep)
